@@ -71,8 +71,7 @@ def build(tier):
     trs = runs.run_many(cfgs)
     ep_jobs = [(N, W, lam, rng.randrange(1 << 30)) for (N, W) in [(1, 1), (2, 2), (3, 2), (2, 4)]
                for lam in (1.0, 0.5, 0.125, 0.0)][: (8 if tier == "quick" else 16)]
-    with mp.get_context("fork").Pool(common.NCPU) as pool:
-        ep = pool.map(entry_point_job, ep_jobs)
+    ep = common.pmap(entry_point_job, ep_jobs)
     return {"groups": groups, "traces": trs, "entry": ep}
 
 
